@@ -1067,16 +1067,24 @@ def cell_cli(cell):
                TMPDIR=tmp_root, VF_FAKECC_CFG=json.dumps(cfg), VF_FAKECC_LOG=log,
                PYTHONDONTWRITEBYTECODE='1', PYTHONHASHSEED='0')
     t0 = time.time()
+    p = subprocess.Popen(cmd, cwd=scratch, env=env, stdout=subprocess.PIPE, stderr=subprocess.PIPE,
+                         start_new_session=True)
     try:
-        p = subprocess.run(cmd, cwd=scratch, env=env, stdout=subprocess.PIPE, stderr=subprocess.PIPE,
-                           timeout=cell.get('timeout', 780))
+        so, se = p.communicate(timeout=cell.get('timeout', 780))
     except subprocess.TimeoutExpired:
+        # wall-clock watchdog, never a verdict; the worker pool must go too
+        with contextlib.suppress(OSError):
+            os.killpg(p.pid, signal.SIGKILL)
+        p.communicate()
         out.skip('session-watchdog')
         shutil.rmtree(tmp_root, ignore_errors=True)
+        shutil.rmtree(bugs, ignore_errors=True)
         return out.result()
+    with contextlib.suppress(OSError):
+        os.killpg(p.pid, signal.SIGKILL)      # stray pool workers, if any
     out.info['cli_wall_s'] = round(time.time() - t0, 1)
-    text = p.stdout.decode('utf-8', 'replace')
-    err = p.stderr.decode('utf-8', 'replace')
+    text = so.decode('utf-8', 'replace')
+    err = se.decode('utf-8', 'replace')
     out.ev('cli_sessions')
     out.ev('cli_sessions_par' if P['workers'] else 'cli_sessions_seq')
     recs = []
